@@ -60,7 +60,62 @@ def json_equal(a, b):
     return a == b
 
 
+class BoundedSink(object):
+    """A write-only text file object that refuses to grow beyond a bound (a runaway writer must not fill the disk)."""
+
+    def __init__(self, bound):
+        self.parts = []
+        self.size = 0
+        self.bound = bound
+
+    def write(self, text):
+        self.size += len(text)
+        if self.size > self.bound:
+            raise Violation("write-text", "write() emitted more than %d characters for a document of %d" % (self.bound, self.bound // 2))
+        self.parts.append(text)
+        return len(text)
+
+    def getvalue(self):
+        return "".join(self.parts)
+
+
+def check_big(case, acc):
+    """Documents of several MiB (one huge string attribute / thousands of nodes): export, write, read."""
+    if case["shape"] == "blob":
+        root = AnyNode(id="root", blob="x\u00e9\"\\" * 400000, tail=[1, 2, {"k": None}])
+        AnyNode(id="kid", parent=root, note="n" * 70000)
+    else:
+        root = AnyNode(id="root")
+        for i in range(4000):
+            kid = AnyNode(id=i, parent=root, text="payload %d " % i * 20, flags=[True, None, i])
+            if i % 500 == 0:
+                AnyNode(id="sub%d" % i, parent=kid)
+    kwargs = dict(case["kwargs"])
+    exporter = JsonExporter(**kwargs)
+    ref = c10.ref_export(root, None, list, dict, None)
+    expected = json.dumps(ref, **kwargs)
+    if len(expected) < (1 << 20):
+        raise Violation("harness", "document smaller than 1 MiB")
+    text = exporter.export(root)
+    if text != expected:
+        raise Violation("export-text", "export() of a %d character document differs from json.dumps (first difference at %d)" % (len(expected), next((i for i, (a, b) in enumerate(zip(text, expected)) if a != b), min(len(text), len(expected)))))
+    sink = BoundedSink(2 * len(expected))
+    exporter.write(root, sink)
+    written = sink.getvalue()
+    if written != expected:
+        raise Violation("write-text", "write() of a %d character document emitted %d characters; first difference at %d" % (len(expected), len(written), next((i for i, (a, b) in enumerate(zip(written, expected)) if a != b), min(len(written), len(expected)))))
+    for how in ("import_", "read"):
+        back = JsonImporter().import_(text) if how == "import_" else JsonImporter().read(io.StringIO(text))
+        again = c10.ref_export(back, None, list, dict, None)
+        if again != ref:
+            raise Violation("import-value", "%s of a %d character document does not rebuild the tree" % (how, len(expected)))
+    acc.nontrivial(True)
+    acc.tag("documents_larger_than_1MiB")
+
+
 def check_case(case, acc):
+    if case.get("kind") == "big":
+        return check_big(case, acc)
     nodes = c10.build(case)
     _once(case, acc, nodes)
     for op in case.get("mutations", []):
@@ -188,8 +243,16 @@ def random_cases(draw):
 def plan(tier, seed):
     nshards = 16
     examples = 200 if tier == "quick" else 1500
-    return [{"engine": "hyp", "examples": examples, "seed": seed * 1000 + i} for i in range(nshards)]
+    tasks = [{"engine": "hyp", "examples": examples, "seed": seed * 1000 + i} for i in range(nshards)]
+    tasks += [{"engine": "big", "shape": shape, "kwargs": kw} for shape in ("blob", "many") for kw in ({}, {"indent": 2, "sort_keys": True}, {"ensure_ascii": False, "separators": [",", ":"]})]
+    return tasks
 
 
 def run_task(task, acc):
+    if task["engine"] == "big":
+        case = {"kind": "big", "shape": task["shape"], "kwargs": task["kwargs"]}
+        exc = acc.evaluate(check_case, case, enumerated=False)
+        if exc is not None:
+            acc.add_violation(case, exc)
+        return
     acc.run_hypothesis(check_case, random_cases(), task["examples"], task["seed"])
